@@ -106,7 +106,7 @@ def parse_events(out, err):
         if line.startswith("Configuration Error:"):
             se.append(["C"])
             continue
-        if line.strip() and not re.match(r"^\(\d+,\d+\): Plugin id|^An unhandled error|^\(Line \d+\): Plugin id", line):
+        if line.strip() and not re.match(r"^\(\d+,\d+\): Plugin id|^An unhandled error|^\(Line \d+\): Plugin id|^'utf-8' codec|^Plugin id '", line):
             junk.append("stderr: " + line)
     return so, se, junk
 
